@@ -112,12 +112,22 @@ def evaluate(root, top='Manifest', subpath='', last_mtime=None,
             if e.tag != 'MANIFEST':
                 continue
             full = join(mdir, e.path)
-            if full in m.manifests or full == mp:
+            if full == mp:
                 continue
             fdir = dirname(full)
             relevant = (check_chain_everywhere or comp_prefix(fdir, subpath)
                         or comp_prefix(subpath, fdir))
             if not relevant:
+                continue
+            if full in m.manifests:
+                # a further reference to a Manifest already in use: whether
+                # the chain check covers it too is not settled (inside the
+                # verified path the file walk decides it anyway)
+                kind, why = check_file(os.path.join(root, full), e.size,
+                                       e.checksums)
+                if kind != 'ok':
+                    m.dontcare.setdefault(
+                        full, f'further MANIFEST entry: {kind}: {why}')
                 continue
             kind, why = check_file(os.path.join(root, full), e.size,
                                    e.checksums)
